@@ -12,6 +12,7 @@ Three logical sub-checks (see DESIGN "### C17"):
   raw arrays for every documented scalar type.
 """
 import datetime as _dt
+import random as _pyrandom
 
 import cv2
 import numpy as np
@@ -195,14 +196,30 @@ def mk(spec, unit=False, positive=False, cls=None, **over):
             arr = arr / arr.dtype.type(8.0) if positive else arr / arr.dtype.type(4.0)
     kw = gens.image_kwargs(sp)
     kw.update(over)
-    cls = cls or darsia.Image
+    cls = cls or _spec_class(sp)
     if cls is darsia.ScalarImage:
         kw.pop("scalar", None)
     if cls is darsia.OpticalImage:
         for k in ("scalar", "space_dim"):
             kw.pop(k, None)
-        kw.setdefault("color_space", "RGB")
+        kw.setdefault("color_space", sp.get("color_space", "RGB"))
     return cls(arr, **kw)
+
+
+def _spec_class(sp):
+    """The image class a spec asks for (key 'cls', drawn by ``_specs``), as far as the payload admits it:
+    ScalarImage needs scalar data, OpticalImage 2-D data with three components."""
+    want = sp.get("cls", "Image")
+    if want == "ScalarImage" and sp["payload"] == "scalar":
+        return darsia.ScalarImage
+    if want == "OpticalImage" and sp["dim"] == 2 and sp["payload"] == "vector" and sp["ncomp"] == 3:
+        return darsia.OpticalImage
+    return darsia.Image
+
+
+def cls_label(a):
+    """Evidence label: the class of the operand."""
+    return (f"cls:{type(a).__name__}",) if isinstance(a, darsia.Image) else ()
 
 
 def other(spec, k=1, dtype=None):
@@ -212,8 +229,21 @@ def other(spec, k=1, dtype=None):
     return sp
 
 
+def _with_class(t):
+    sp, want, cs = dict(t[0]), t[1], t[2]
+    if want == "OpticalImage" and sp["dim"] == 2 and sp["payload"] == "vector":
+        sp["ncomp"] = 3  # a trichromatic payload, so that the request can be honoured
+        sp["color_space"] = cs
+    sp["cls"] = want
+    return sp
+
+
 def _specs(**kw):
-    return gens.image_specs(**kw)
+    """gens.image_specs plus the class of the image ("random images of every kind"): the general Image,
+    ScalarImage (scalar payloads) or OpticalImage (2-D three-component payloads)."""
+    return st.tuples(gens.image_specs(**kw),
+                     st.sampled_from(["Image", "Image", "ScalarImage", "OpticalImage"]),
+                     st.sampled_from(["RGB", "BGR", "HSV"])).map(_with_class)
 
 
 S_ANY = _specs(dtypes=ALL_DTYPES, max_nt=3, max_comp=3)
@@ -246,13 +276,20 @@ def mk_optical(spec):
 
 
 class Call:
-    def __init__(self, args, fn, tolerated=REJ, view_ok=False, identity_ok=False, labels=()):
+    def __init__(self, args, fn, tolerated=REJ, view_ok=False, identity_ok=False, labels=(), setup=None,
+                 repeat=True):
         self.args = args  # role -> caller-owned object
         self.labels = tuple(labels)  # class labels of the operands (evidence only)
+        # setup (optional): builds the *callee* (model, Resize, Geometry, ... object) from the caller-owned
+        # arguments.  It runs inside the oracle, i.e. after the snapshots were taken, so that arguments a
+        # constructor / configuration call writes into are seen; fn then receives the callee.  Without a
+        # setup fn takes no argument.
+        self.setup = setup
         self.fn = fn
         self.tolerated = tolerated
         self.view_ok = view_ok  # result may be a numpy view of an argument (extraction / wrapping)
         self.identity_ok = identity_ok  # result may be an argument itself
+        self.repeat = repeat  # the identical call is issued a second time (same callee, same arguments)
 
 
 class Form:
@@ -311,6 +348,29 @@ def _rng_equal(a, b):
     return a[0] == b[0] and np.array_equal(a[1], b[1]) and tuple(a[2:]) == tuple(b[2:])
 
 
+class _Globals:
+    """The process-wide random state an operation must leave alone: numpy's legacy global generator
+    and the generator of Python's ``random`` module."""
+
+    def __init__(self):
+        cv2.setRNGSeed(0)
+        np.random.seed(20231)
+        _pyrandom.seed(20231)
+        self.np_state = np.random.get_state()
+        self.py_state = _pyrandom.getstate()
+
+    def changed(self):
+        if not _rng_equal(self.np_state, np.random.get_state()):
+            return "numpy", "the state of the global numpy RNG"
+        if self.py_state != _pyrandom.getstate():
+            return "python", "the state of Python's global random module"
+        return None
+
+
+def _invoke(call, callee):
+    return call.fn(callee) if call.setup is not None else call.fn()
+
+
 def execute(name, call, tags, watch=None):
     """Run one call with the full C17 oracle.  -> (result or None, status, labels)"""
     w = watch if watch is not None else Watch(call.args)
@@ -318,12 +378,13 @@ def execute(name, call, tags, watch=None):
     for r in roles:
         if r not in w.objs:
             w.add(r, call.args[r])
-    cv2.setRNGSeed(0)
-    np.random.seed(20231)
-    rng0 = np.random.get_state()
+    g0 = _Globals()
     raised = None
+    callee = None
     try:
-        res = call.fn()
+        if call.setup is not None:
+            callee = call.setup()
+        res = _invoke(call, callee)
     except call.tolerated as e:
         raised = e
         res = None
@@ -334,10 +395,11 @@ def execute(name, call, tags, watch=None):
         how = f" (the call raised {type(raised).__name__})" if raised is not None else ""
         raise Violation(f"mutated:{name}:{role}", f"{name} changed its argument '{role}': {desc}{how}",
                         dict(tags, form=name, role=role, field=field))
-    # 2. global numpy RNG untouched
-    if not _rng_equal(rng0, np.random.get_state()):
-        raise Violation(f"rng:{name}", f"{name} changed the state of the global numpy RNG",
-                        dict(tags, form=name))
+    # 2. global random state untouched
+    gch = g0.changed()
+    if gch is not None:
+        raise Violation(f"rng:{name}" if gch[0] == "numpy" else f"rng:{gch[0]}:{name}",
+                        f"{name} changed {gch[1]}", dict(tags, form=name))
     if raised is not None:
         return None, "raised", (f"raised:{type(raised).__name__}",)
     labels = []
@@ -359,7 +421,33 @@ def execute(name, call, tags, watch=None):
             raise Violation(f"shares-memory:{name}", f"{name}: {shared[0]} shares memory with the "
                             f"argument {shared[1]}", dict(tags, form=name))
         labels.append("result-is-view")
-    # 4. behavioural aliasing: documented in-place API on the *result* must not reach an argument
+    # 4. repeatability: nothing the call could see has changed (arguments: step 1, global random state:
+    #    step 2), so the identical call - same callee object, same arguments - must give the identical
+    #    result.  A difference means the first call altered something it was handed that the snapshots
+    #    do not reach (the callee's own parameters, nested / opaque members, module-level state).
+    if call.repeat:
+        first = snap(res)
+        g1 = _Globals()
+        try:
+            res2 = _invoke(call, callee)
+        except call.tolerated as e:
+            raise Violation(f"not-repeatable:{name}", f"{name}: the first call returned, the identical second "
+                            f"call (same object, same arguments) raised {type(e).__name__}: {e}",
+                            dict(tags, form=name))
+        d = snap_diff(first, snap(res2))
+        if d is not None:
+            raise Violation(f"not-repeatable:{name}", f"{name}: the identical second call (same object, same "
+                            f"arguments, arguments verified unchanged) returned another result: {d[1]}",
+                            dict(tags, form=name))
+        ch = w.changed()
+        if ch is not None:
+            raise Violation(f"mutated:{name}:{ch[0]}", f"the second call of {name} changed its argument "
+                            f"'{ch[0]}': {ch[2]}", dict(tags, form=name, role=ch[0], field=ch[1]))
+        if g1.changed() is not None:
+            raise Violation(f"rng:{name}", f"the second call of {name} changed {g1.changed()[1]}",
+                            dict(tags, form=name))
+        labels.append("repeated")
+    # 5. behavioural aliasing: documented in-place API on the *result* must not reach an argument
     for k, r in enumerate(res_imgs[:3]):
         if any(r is o for o in w.objs.values()):
             continue
@@ -390,7 +478,10 @@ def execute(name, call, tags, watch=None):
 def spec_tags(sp):
     if not isinstance(sp, dict) or "dim" not in sp:
         return {}
-    return {"dim": sp["dim"], "dtype": sp["dtype"], "series": sp["series"], "payload": sp["payload"]}
+    t = {"dim": sp["dim"], "dtype": sp["dtype"], "series": sp["series"], "payload": sp["payload"]}
+    if _spec_class(sp) is not darsia.Image:
+        t["cls"] = _spec_class(sp).__name__
+    return t
 
 
 def check_registry(case):
@@ -401,7 +492,7 @@ def check_registry(case):
     res, status, labels = execute(form.name, call, tags)
     labs = (form.name,) + tuple(f"{form.name}|{x}" for x in labels if x.startswith("raised"))
     labs += tuple(x for x in labels if not x.startswith("raised"))
-    labs += tuple(f"{form.name}|{x}" for x in call.labels)
+    labs += tuple(x if x.startswith("cls:") else f"{form.name}|{x}" for x in call.labels)
     if status == "raised":
         return Outcome(nontrivial=False, key=case, labels=labs, status="rejected")
     return Outcome(nontrivial=True, key=case, labels=labs, evals=1 + len(call.args))
@@ -449,7 +540,7 @@ def _pair(p):
 def _binary(op, tol=REJ_T):
     def build(p):
         a, b = _pair(p)
-        return Call({"self": a, "other": b}, lambda: op(a, b), tol)
+        return Call({"self": a, "other": b}, lambda: op(a, b), tol, labels=cls_label(a))
     return build
 
 
@@ -473,8 +564,8 @@ def _scalar_form(stype, right, op=None):
         v = p["v"] if stype in ("float", "np.float64", "np.float32") else float(int(p["v"]))
         s = SCALARS[stype](v)
         if op is not None:
-            return Call({"self": a}, lambda: op(a, s), REJ_CMP)
-        return Call({"self": a}, (lambda: s * a) if right else (lambda: a * s), REJ_T)
+            return Call({"self": a}, lambda: op(a, s), REJ_CMP, labels=cls_label(a))
+        return Call({"self": a}, (lambda: s * a) if right else (lambda: a * s), REJ_T, labels=cls_label(a))
     return build
 
 
@@ -493,10 +584,11 @@ for _n, _op in CMP.items():
 G_A = fd(a=S_ANY)
 
 
-def _unary(fn, tolerated=REJ_T, unit=False, **kw):
+def _unary(fn, tolerated=REJ_T, unit=False, labels=None, **kw):
     def build(p):
         a = mk(p["a"], unit=unit)
-        return Call({"self": a}, lambda: fn(a, p), tolerated, **kw)
+        labs = cls_label(a) + (tuple(labels(a, p)) if labels is not None else ())
+        return Call({"self": a}, lambda: fn(a, p), tolerated, labels=labs, **kw)
     return build
 
 
@@ -569,7 +661,8 @@ def _slice_named(p):
     v = np.zeros(sp["dim"])
     v[m] = p["cut"] % sp["shape"][m] + 0.5
     cut = float(RefCS(sp["dim"], sp["shape"], sp["dimensions"], sp["origin"]).coordinate(v)[c])
-    return Call({"self": a}, lambda: a.slice(cut, "xyz"[c]), REJ_T + (IndexError,), view_ok=True)
+    return Call({"self": a}, lambda: a.slice(cut, "xyz"[c]), REJ_T + (IndexError,), view_ok=True,
+                labels=cls_label(a))
 
 
 F("slice:named-axis", "extraction", fd(a=S_23, ax=st.integers(0, 2), cut=st.integers(0, 8)), _slice_named)
@@ -593,7 +686,7 @@ def _sub_slices(p):
     a = mk(p["a"])
     lo, hi = _box(a, p)
     roi = tuple(slice(None if (p["open"] >> d) & 1 and lo[d] == 0 else lo[d], hi[d]) for d in range(a.space_dim))
-    return Call({"self": a, "roi": roi}, lambda: a.subregion(roi), REJ, view_ok=True)
+    return Call({"self": a, "roi": roi}, lambda: a.subregion(roi), REJ, view_ok=True, labels=cls_label(a))
 
 
 def _overhang(a, p, lo, hi):
@@ -612,7 +705,7 @@ def _sub_voxels(p):
     lo, hi = _box(a, p)
     lo, hi = _overhang(a, p, lo, hi)
     roi = darsia.VoxelArray([lo, hi])
-    return Call({"self": a, "roi": roi}, lambda: a.subregion(roi), REJ, view_ok=True)
+    return Call({"self": a, "roi": roi}, lambda: a.subregion(roi), REJ, view_ok=True, labels=cls_label(a))
 
 
 def _sub_coords(p):
@@ -623,7 +716,7 @@ def _sub_coords(p):
     ref = RefCS(sp["dim"], sp["shape"], sp["dimensions"], sp["origin"])
     pts = np.vstack([ref.coordinate(np.array(lo) + 0.5), ref.coordinate(np.array(hi) + 0.5)])
     roi = darsia.CoordinateArray(pts)
-    return Call({"self": a, "roi": roi}, lambda: a.subregion(roi), REJ, view_ok=True)
+    return Call({"self": a, "roi": roi}, lambda: a.subregion(roi), REJ, view_ok=True, labels=cls_label(a))
 
 
 F("subregion:slices", "extraction", G_SUB, _sub_slices)
@@ -653,6 +746,34 @@ F("bounding_box", "extraction",
   fd(pts=st.lists(st.lists(st.integers(0, 30), min_size=2, max_size=2), min_size=1, max_size=5),
      pad=st.integers(0, 3), ms=st.one_of(st.none(), st.lists(st.integers(5, 40), min_size=2, max_size=2))),
   _bbox)
+
+
+def _box_of(p):
+    lo = [min(q[d] for q in p["pts"]) for d in range(2)]
+    hi = [max(q[d] for q in p["pts"]) + 1 + p["pad"] for d in range(2)]
+    return tuple(slice(lo[d], hi[d]) for d in range(2))
+
+
+def _bbox_inverse(p):
+    box = _box_of(p)
+    return Call({"bounding_box": box}, lambda: darsia.bounding_box_inverse(box), REJ)
+
+
+def _perimeter(p):
+    """perimeter accepts a tuple of slices or an array of corner points (voxels or metric units)."""
+    if p["ms"] is None:
+        box = _box_of(p)
+    else:
+        box = np.array(p["pts"], dtype=float) * (p["ms"][0] / 8.0)
+        if len(p["pts"]) % 2:
+            box = darsia.VoxelArray(np.array(p["pts"], dtype=int))
+    return Call({"box": box}, lambda: darsia.perimeter(box), REJ)
+
+
+G_BOX = fd(pts=st.lists(st.lists(st.integers(0, 30), min_size=2, max_size=2), min_size=1, max_size=5),
+           pad=st.integers(0, 3), ms=st.one_of(st.none(), st.lists(st.integers(5, 40), min_size=2, max_size=2)))
+F("bounding_box_inverse", "extraction", G_BOX, _bbox_inverse, weight=1)
+F("perimeter", "extraction", G_BOX, _perimeter, weight=1)
 
 
 def _random_patches(p):
@@ -772,7 +893,7 @@ def _weight_scalar(conv):
     def build(p):
         a = mk(p["a"])
         s = conv(p["v"])
-        return Call({"img": a}, lambda: darsia.weight(a, s), REJ_T)
+        return Call({"img": a}, lambda: darsia.weight(a, s), REJ_T, labels=cls_label(a))
     return build
 
 
@@ -792,7 +913,7 @@ def _weight_image(different):
             if wsp["shape"] == list(sp["shape"]):
                 wsp["shape"][0] += 1
         w = mk(wsp, positive=True)
-        return Call({"img": a, "weight": w}, lambda: darsia.weight(a, w), REJ_CV)
+        return Call({"img": a, "weight": w}, lambda: darsia.weight(a, w), REJ_CV, labels=cls_label(a))
     return build
 
 
@@ -807,7 +928,7 @@ def _weight_array(p):
     a = mk(p["a"])
     rng = np.random.default_rng(p["a"]["pseed"] + 5)
     w = rng.integers(1, 9, size=a.img.shape[a.space_dim:]) / 4.0
-    return Call({"img": a, "weight": w}, lambda: darsia.weight(a, w), REJ_T)
+    return Call({"img": a, "weight": w}, lambda: darsia.weight(a, w), REJ_T, labels=cls_label(a))
 
 
 F("weight:ndarray", "composition",
@@ -828,11 +949,12 @@ def _stack(p):
         imgs.append(mk(s))
     owned = {f"images[{k}]": im for k, im in enumerate(imgs)}
     owned["images"] = imgs
-    return Call(owned, lambda: darsia.stack(imgs), REJ)
+    return Call(owned, lambda: darsia.stack(imgs), REJ,
+                labels=cls_label(imgs[0]) + (("neutral:single-image-list",) if p["n"] == 1 else ()))
 
 
 F("stack", "composition",
-  fd(a=_specs(dtypes=ALL_DTYPES, series=(False,)), n=st.integers(2, 4), first_series=st.booleans()),
+  fd(a=_specs(dtypes=ALL_DTYPES, series=(False,)), n=st.integers(1, 4), first_series=st.booleans()),
   _stack)
 
 
@@ -865,48 +987,90 @@ F("superpose", "composition",
 # =======================================================================================
 
 INTERP = [None, "inter_area", "inter_linear", "inter_nearest"]
+# neutral: the requested shape is the shape the image already has / both factors are 1 - there is
+# nothing to resize, which is where an implementation is tempted to hand back its argument
 G_RS = fd(a=S_2D, shape=st.lists(st.integers(1, 12), min_size=2, max_size=2),
           f=st.lists(st.sampled_from([0.5, 1.0, 2.0, 1.5]), min_size=2, max_size=2),
-          interp=st.sampled_from(INTERP), cons=st.booleans(), dt=st.sampled_from([None, None, "float32"]))
+          interp=st.sampled_from(INTERP), cons=st.booleans(), dt=st.sampled_from([None, None, "float32"]),
+          neutral=st.sampled_from([False, False, False, True]), as_list=st.booleans())
+
+
+def _rs_shape(p):
+    return list(p["a"]["shape"]) if p.get("neutral") else list(p["shape"])
+
+
+def _rs_f(p):
+    return [1.0, 1.0] if p.get("neutral") else p["f"]
+
+
+def _rs_labels(a, p):
+    return cls_label(a) + (("neutral:same-shape",) if p.get("neutral") else ())
 
 
 def _resize_obj_shape(p):
     a = mk(p["a"])
     kw = {"resize conservative": True} if p["cons"] else {}
-    shape = tuple(p["shape"])
-    r = darsia.Resize(shape=shape, interpolation=p["interp"], dtype=_dt_of(p), **kw)
-    return Call({"img": a}, lambda: r(a), REJ_CV)
+    shape = _rs_shape(p) if p.get("as_list") else tuple(_rs_shape(p))
+    return Call({"img": a, "shape": shape}, lambda r: r(a), REJ_CV, labels=_rs_labels(a, p),
+                setup=lambda: darsia.Resize(shape=shape, interpolation=p["interp"], dtype=_dt_of(p), **kw))
 
 
 def _resize_obj_array(p):
     a = mk(p["a"]).img
-    r = darsia.Resize(fx=p["f"][0], fy=p["f"][1], interpolation=p["interp"], dtype=_dt_of(p))
-    return Call({"img": a}, lambda: r(a), REJ_CV)
+    f = _rs_f(p)
+    return Call({"img": a}, lambda r: r(a), REJ_CV, labels=_rs_labels(None, p),
+                setup=lambda: darsia.Resize(fx=f[0], fy=f[1], interpolation=p["interp"], dtype=_dt_of(p)))
 
 
 def _resize_obj_ref(p):
     a = mk(p["a"])
-    ref = mk(dict(other(p["a"], 2), shape=p["shape"], payload="scalar", ncomp=0, series=False, nt=0))
-    return Call({"img": a, "ref_image": ref},
-                lambda: darsia.Resize(ref_image=ref, interpolation=p["interp"])(a), REJ_CV)
+    ref = mk(dict(other(p["a"], 2), shape=_rs_shape(p), payload="scalar", ncomp=0, series=False, nt=0))
+    return Call({"img": a, "ref_image": ref}, lambda r: r(a), REJ_CV, labels=_rs_labels(a, p),
+                setup=lambda: darsia.Resize(ref_image=ref, interpolation=p["interp"]))
+
+
+def _resize_obj_options(p):
+    """The keyword-dictionary configuration of the class docstring (key + 'resize x', ...)."""
+    a = mk(p["a"])
+    f = _rs_f(p)
+    key = "example " if p["cons"] else ""
+    options = {key + "resize x": f[0], key + "resize y": f[1]}
+    if p["interp"] is not None:
+        options[key + "resize interpolation"] = p["interp"]
+    if p["dt"] is not None:
+        options[key + "resize dtype"] = _dt_of(p)
+    return Call({"img": a, "options": options}, lambda r: r(a), REJ_CV, labels=_rs_labels(a, p),
+                setup=lambda: darsia.Resize(key=key, **options))
 
 
 def _resize_fn(p):
     a = mk(p["a"])
-    return Call({"image": a}, lambda: darsia.resize(a, fx=p["f"][0], fy=p["f"][1],
-                                                    interpolation=p["interp"], dtype=_dt_of(p)), REJ_CV)
+    f = _rs_f(p)
+    return Call({"image": a}, lambda: darsia.resize(a, fx=f[0], fy=f[1], interpolation=p["interp"],
+                                                    dtype=_dt_of(p)), REJ_CV, labels=_rs_labels(a, p))
+
+
+def _resize_fn_shape(p):
+    a = mk(p["a"])
+    shape = _rs_shape(p) if p.get("as_list") else tuple(_rs_shape(p))
+    return Call({"image": a, "shape": shape},
+                lambda: darsia.resize(a, shape=shape, interpolation=p["interp"], dtype=_dt_of(p)), REJ_CV,
+                labels=_rs_labels(a, p))
 
 
 def _resize_fn_ref(p):
     a = mk(p["a"])
-    ref = mk(dict(other(p["a"], 2), shape=p["shape"]))
-    return Call({"image": a, "ref_image": ref}, lambda: darsia.resize(a, ref_image=ref), REJ_CV)
+    ref = mk(dict(other(p["a"], 2), shape=_rs_shape(p)))
+    return Call({"image": a, "ref_image": ref}, lambda: darsia.resize(a, ref_image=ref), REJ_CV,
+                labels=_rs_labels(a, p))
 
 
 F("Resize(shape)(image)", "resize", G_RS, _resize_obj_shape)
 F("Resize(fx,fy)(array)", "resize", G_RS, _resize_obj_array)
 F("Resize(ref_image)(image)", "resize", G_RS, _resize_obj_ref)
+F("Resize(**options)(image)", "resize", G_RS, _resize_obj_options, weight=2)
 F("resize(fx,fy)", "resize", G_RS, _resize_fn)
+F("resize(shape)", "resize", G_RS, _resize_fn_shape, weight=2)
 F("resize(ref_image)", "resize", G_RS, _resize_fn_ref)
 
 
@@ -914,7 +1078,7 @@ def _equalize(p):
     a = mk(p["a"])
     vs = None if p["k"] == 0 else min(a.voxel_size) * p["k"] / 2.0
     kw = {} if p["interp"] is None else {"interpolation": p["interp"]}
-    return Call({"image": a}, lambda: darsia.equalize_voxel_size(a, vs, **kw), REJ_CV)
+    return Call({"image": a}, lambda: darsia.equalize_voxel_size(a, vs, **kw), REJ_CV, labels=cls_label(a))
 
 
 @st.composite
@@ -932,8 +1096,9 @@ F("equalize_voxel_size", "resize", fd(a=mild_2d_specs(), k=st.integers(0, 3), in
   _equalize)
 F("uniform_refinement", "resize",
   fd(a=_specs(dtypes=("float64", "float32", "uint8"), max_nt=3, max_comp=3, max_extent={1: 12, 2: 7, 3: 4}),
-     lv=st.sampled_from([-2, -1, 1, 2])),
-  _unary(lambda a, p: darsia.uniform_refinement(a, p["lv"]), REJ_T))
+     lv=st.sampled_from([-2, -1, 0, 1, 2])),  # 0 levels: nothing to refine, still a new image
+  _unary(lambda a, p: darsia.uniform_refinement(a, p["lv"]), REJ_T,
+         labels=lambda a, p: ("neutral:levels=0",) if p["lv"] == 0 else ()))
 
 G_RED = fd(a=S_23, ax=st.integers(0, 2), by_name=st.booleans(),
            mode=st.sampled_from(["average", "sum", "slice"]), idx=st.integers(0, 8))
@@ -951,14 +1116,15 @@ def _red_args(a, p):
 def _reduce_fn(p):
     a = mk(p["a"])
     axis, kw = _red_args(a, p)
-    return Call({"image": a}, lambda: darsia.reduce_axis(a, axis, p["mode"], **kw), REJ_T + (KeyError,))
+    return Call({"image": a}, lambda: darsia.reduce_axis(a, axis, p["mode"], **kw), REJ_T + (KeyError,),
+                labels=cls_label(a))
 
 
 def _reduce_obj(p):
     a = mk(p["a"])
     axis, kw = _red_args(a, p)
-    red = darsia.AxisReduction(axis, a.space_dim, p["mode"], **kw)
-    return Call({"img": a}, lambda: red(a), REJ_T)
+    return Call({"img": a}, lambda red: red(a), REJ_T, labels=cls_label(a),
+                setup=lambda: darsia.AxisReduction(axis, a.space_dim, p["mode"], **kw))
 
 
 F("reduce_axis", "resize", G_RED, _reduce_fn)
@@ -980,8 +1146,7 @@ G_SIG = fd(a=_specs(dims=(1, 2, 2, 3), dtypes=FLOATS, max_nt=2, max_comp=3),
 def _model_array(make, tolerated=REJ_T, **ckw):
     def build(p):
         a = mk(p["a"]).img
-        m = make(p)
-        return Call({"signal": a}, lambda: m(a), tolerated, **ckw)
+        return Call({"signal": a}, lambda m: m(a), tolerated, setup=lambda: make(p), **ckw)
     return build
 
 
@@ -1008,53 +1173,85 @@ F("ScalingModel(image)", "models", G_SIG,
 LIN_VIA = ("ctor", "ctor-defaults", "update", "parameters:all", "parameters:dofs")
 G_LIN = fd(a=_specs(dims=(1, 2, 2, 3), dtypes=FLOATS, max_nt=2, max_comp=3),
            lo=st.sampled_from([0.0, -1.0, 0.5]), hi=st.sampled_from([None, 1.0, 2.5]),
-           s=st.sampled_from([1.0, 2.0, 1.0, 0.5, -1.5, 3.0]), o=st.sampled_from([0.0, 1.0, -0.25, 0.25, -3.0]),
-           via=st.sampled_from(LIN_VIA), key=st.sampled_from(["", "", "model "]))
+           # (way of configuration, scaling) is drawn as ONE choice from the full product, so that every way
+           # meets every kind of scaling - neutral, positive, negative (signal models may flip the sign) -;
+           # two independent draws leave whole combinations out of a quick run (Hypothesis mutates earlier
+           # examples rather than sampling uniformly)
+           cfg=st.sampled_from([[via, s_] for via in LIN_VIA for s_ in (1.0, 1.0, 2.0, 0.5, -1.5, -2.0)]),
+           o=st.sampled_from([0.0, 1.0, -0.25, 0.25, -3.0]), key=st.sampled_from(["", "", "model "]))
 
 
 def _affine_class(s, o):
-    return ("unit-scaling" if s == 1.0 else "scaling") + ("+offset" if o != 0.0 else ",no-offset")
+    return ("unit-scaling" if s == 1.0 else "scaling" if s > 0 else "negative-scaling") + \
+        ("+offset" if o != 0.0 else ",no-offset")
+
+
+def _lin_cfg(p):
+    """[via, scaling]; replay files written before the two were drawn as one choice carry them apart."""
+    return p["cfg"] if "cfg" in p else [p["via"], p["s"]]
 
 
 def _linear(p, owned):
-    """LinearModel with scaling p['s'] and offset p['o'], configured the way p['via'] says; arrays /
-    lists handed to the configuration calls are registered in ``owned`` (they belong to the caller)."""
-    s, o, via, key = p["s"], p["o"], p["via"], p["key"]
+    """-> factory of a LinearModel with scaling and way of configuration p['cfg'] = [via, scaling] and
+    offset p['o'].  The arrays / lists handed to the configuration calls belong to the caller: they are created
+    here and registered in ``owned``; the factory (constructor + configuration calls) runs inside the
+    oracle, after the snapshots."""
+    (via, s), o, key = _lin_cfg(p), p["o"], p["key"]
     if via == "ctor":
-        return darsia.LinearModel(key, **{key + "scaling": s, key + "offset": o})
+        return lambda: darsia.LinearModel(key, **{key + "scaling": s, key + "offset": o})
     if via == "ctor-defaults":  # keywords that equal the documented defaults are left out
         kw = {}
         if s != 1.0:
             kw[key + "scaling"] = s
         if o != 0.0:
             kw[key + "offset"] = o
-        return darsia.LinearModel(key, **kw)
-    m = darsia.LinearModel()
+        return lambda: darsia.LinearModel(key, **kw)
     if via == "update":
-        m.update(scaling=s, offset=o)
-    elif via == "parameters:all":
+        def make():
+            m = darsia.LinearModel()
+            m.update(scaling=s, offset=o)
+            return m
+        return make
+    if via == "parameters:all":
         par = np.array([s, o])
         owned["parameters"] = par
-        m.update_model_parameters(par, "all" if key else None)
-    else:  # one degree of freedom at a time, the way a calibration of a subset of the dofs does it
-        ps, po, ds, do = np.array([s]), np.array([o]), ["scaling"], ["offset"]
-        owned.update({"parameters(scaling)": ps, "parameters(offset)": po, "dofs(scaling)": ds,
-                      "dofs(offset)": do})
+
+        def make():
+            m = darsia.LinearModel()
+            m.update_model_parameters(par, "all" if key else None)
+            return m
+        return make
+    # one degree of freedom at a time, the way a calibration of a subset of the dofs does it
+    ps, po, ds, do = np.array([s]), np.array([o]), ["scaling"], ["offset"]
+    owned.update({"parameters(scaling)": ps, "parameters(offset)": po, "dofs(scaling)": ds,
+                  "dofs(offset)": do})
+
+    def make():
+        m = darsia.LinearModel()
         m.update_model_parameters(ps, ds)
         m.update_model_parameters(po, do)
-    return m
+        return m
+    return make
 
 
 def _linear_array(combined):
     def build(p):
         a = mk(p["a"]).img
         owned = {"signal": a}
-        m = _linear(p, owned)
+        make = _linear(p, owned)
         if combined:
-            models = [m, _clip(p)]
+            models = [make(), _clip(p)]  # caller-owned list handed to the constructor
             owned["models"] = models
-            m = darsia.CombinedModel(models)
-        return Call(owned, lambda: m(a), REJ_T, labels=(_affine_class(p["s"], p["o"]), f"via:{p['via']}"))
+
+            def setup():
+                return darsia.CombinedModel(models)
+        else:
+            setup = make
+        return Call(owned, lambda m: m(a), REJ_T,
+                    labels=(_affine_class(_lin_cfg(p)[1], p["o"]), f"via:{_lin_cfg(p)[0]}",
+                            f"via:{_lin_cfg(p)[0]}," + ("negative" if _lin_cfg(p)[1] < 0 else
+                                                        "unit" if _lin_cfg(p)[1] == 1.0 else "positive")),
+                    setup=setup)
     return build
 
 
@@ -1085,28 +1282,29 @@ def _het_linear(p):
         offset = [p["o"] if i % 2 == 0 else 0.25 for i in range(nl)]
     else:
         scaling, offset = [p["s"]] * nl, [p["o"]] * nl
-    m = darsia.HeterogeneousLinearModel(lab, scaling=scaling, offset=offset)
-    return Call({"signal": a, "labels": lab, "scaling": scaling, "offset": offset}, lambda: m(a), REJ_CV,
-                labels=(_affine_class(p["s"], p["o"]),))
+    return Call({"signal": a, "labels": lab, "scaling": scaling, "offset": offset}, lambda m: m(a), REJ_CV,
+                labels=(_affine_class(p["s"], p["o"]),),
+                setup=lambda: darsia.HeterogeneousLinearModel(lab, scaling=scaling, offset=offset))
 
 
 def _het_model(p):
     a = mk(p["a"]).img
     lab_img = darsia.Image(_labels(p, a.shape), dimensions=list(p["a"]["dimensions"]), scalar=True)
-    m = darsia.HeterogeneousModel(darsia.LinearModel(scaling=p["s"], offset=p["o"]), lab_img)
-    return Call({"signal": a, "labels": lab_img}, lambda: m(a), REJ_T + (IndexError,),
-                labels=(_affine_class(p["s"], p["o"]),))
+    return Call({"signal": a, "labels": lab_img}, lambda m: m(a), REJ_T + (IndexError,),
+                labels=(_affine_class(p["s"], p["o"]),),
+                setup=lambda: darsia.HeterogeneousModel(darsia.LinearModel(scaling=p["s"], offset=p["o"]),
+                                                        lab_img))
 
 
 def _static_hom(p):
     a = mk(p["a"]).img
-    m = darsia.StaticThresholdModel(p["lo"], p["hi"], return_float=p["rf"])
     owned = {"signal": a}
     mask = None
     if p["mask"]:
         mask = np.random.default_rng(p["a"]["pseed"] + 3).random(a.shape) < 0.6
         owned["mask"] = mask
-    return Call(owned, lambda: m(a, mask), REJ_T)
+    return Call(owned, lambda m: m(a, mask), REJ_T,
+                setup=lambda: darsia.StaticThresholdModel(p["lo"], p["hi"], return_float=p["rf"]))
 
 
 def _static_het(p):
@@ -1115,11 +1313,11 @@ def _static_het(p):
     nl = len(np.unique(lab))
     lo = [p["lo"] + 0.25 * i for i in range(nl)]
     hi = None if p["hi"] is None else [p["hi"] + 0.25 * i for i in range(nl)]
-    m = darsia.StaticThresholdModel(lo, hi, labels=lab, return_float=p["rf"])
     owned = {"signal": a, "labels": lab, "threshold_lower": lo}
     if hi is not None:
         owned["threshold_upper"] = hi
-    return Call(owned, lambda: m(a), REJ_T)
+    return Call(owned, lambda m: m(a), REJ_T,
+                setup=lambda: darsia.StaticThresholdModel(lo, hi, labels=lab, return_float=p["rf"]))
 
 
 F("HeterogeneousLinearModel(array)", "models", G_LAB, _het_linear, weight=2)
@@ -1156,8 +1354,8 @@ def _kernel(p):
     supports = np.array([[0.1, 0.2, 0.9], [0.8, 0.1, 0.3], [0.4, 0.9, 0.5], [0.9, 0.9, 0.1]][:k])
     values = np.array([0.0, 1.0, 0.5, 0.25][:k])
     kernel = _NumpyGaussian(p["g"]) if p["gauss"] else _NumpyLinear(1.0)
-    m = darsia.KernelInterpolation(kernel, supports, values)
-    return Call({"signal": sig, "supports": supports, "values": values}, lambda: m(sig), REJ_T)
+    return Call({"signal": sig, "supports": supports, "values": values}, lambda m: m(sig), REJ_T,
+                setup=lambda: darsia.KernelInterpolation(kernel, supports, values))
 
 
 F("KernelInterpolation(array)", "models",
@@ -1173,11 +1371,14 @@ TVD_METHODS = {"chambolle": 3, "anisotropic bregman": 3, "isotropic bregman": 3,
 def _tvd_obj(method, on_image):
     def build(p):
         a = mk(p["a"], unit=True)
-        t = darsia.TVD(method=method, weight=p["w"], max_num_iter=p["it"])
         x = a if on_image else a.img
         # skimage's Chambolle solver hands back its input array when it stops after the first
-        # sweep (max_num_iter=1): like ScalingModel(1.0) an identity, not a mutation
-        return Call({"img": x}, lambda: t(x), REJ_T, view_ok=True, identity_ok=not on_image)
+        # sweep (max_num_iter=1): like ScalingModel(1.0) an identity, not a mutation.
+        # The heterogeneous Bregman solver costs ~0.3 s per call; whether regularisers carry hidden state
+        # from one call to the next is the subject of C16, so its call is not issued twice here.
+        return Call({"img": x}, lambda t: t(x), REJ_T, view_ok=True, identity_ok=not on_image,
+                    setup=lambda: darsia.TVD(method=method, weight=p["w"], max_num_iter=p["it"]),
+                    repeat=method != "heterogeneous bregman")
     return build
 
 
@@ -1208,19 +1409,26 @@ G_GEO = fd(a=_specs(dims=(1, 2, 2, 2, 3), dtypes=FLOATS, max_nt=3, max_comp=2), 
            coarse=st.lists(st.integers(1, 6), min_size=3, max_size=3))
 
 
-def _geometry(a, p):
+def _geometry(a, p, owned):
+    """-> factory of the (weighted) geometry of image a.  What the constructor is handed belongs to the
+    caller - the dictionary of ``a.shape_metadata()`` (its 'dimensions' entry is the image's own list;
+    no defensive copy here) and the weight array -: it is registered in ``owned`` and the constructor
+    runs inside the oracle, after the snapshots."""
     kw = a.shape_metadata()
-    kw["dimensions"] = list(kw["dimensions"])
+    owned["image"] = a
+    owned["shape_metadata"] = kw
     if p["weighted"] and a.img.ndim == a.space_dim:  # array weights broadcast only against plain data
         w = np.random.default_rng(p["a"]["pseed"] + 1).integers(1, 5, size=a.num_voxels) / 4.0
-        return darsia.WeightedGeometry(w, **kw)
-    return darsia.Geometry(**kw)
+        owned["weight"] = w
+        return lambda: darsia.WeightedGeometry(w, **kw)
+    return lambda: darsia.Geometry(**kw)
 
 
 def _integrate(kind):
     def build(p):
         a = mk(p["a"])
-        g = _geometry(a, p)
+        owned = {}
+        make = _geometry(a, p, owned)
         if kind == "image":
             data = a
         elif kind == "array":
@@ -1228,7 +1436,9 @@ def _integrate(kind):
         else:
             shape = [p["coarse"][d] for d in range(a.space_dim)] + list(a.img.shape[a.space_dim:])
             data = np.random.default_rng(p["a"]["pseed"] + 2).integers(0, 9, size=shape) / 4.0
-        return Call({"data": data}, lambda: g.integrate(data), REJ_CV)
+        owned["data"] = data
+        return Call(owned, lambda g: g.integrate(data), REJ_CV, setup=make,
+                    labels=cls_label(a) + (("weighted",) if "weight" in owned else ()))
     return build
 
 
@@ -1240,8 +1450,11 @@ F("Geometry.integrate(array-other-resolution)", "measures", G_GEO, _integrate("o
 def _normalize(p):
     a = mk(p["a"], positive=True)
     ref = mk(other(p["a"], 1), positive=True)
-    g = _geometry(a, p)
-    return Call({"img": a, "img_ref": ref}, lambda: g.normalize(a, ref, p["ratio"]), REJ_T)
+    owned = {}
+    make = _geometry(a, p, owned)
+    owned.update({"img": a, "img_ref": ref})
+    return Call(owned, lambda g: g.normalize(a, ref, p["ratio"]), REJ_T, setup=make,
+                labels=cls_label(a) + (("weighted",) if "weight" in owned else ()))
 
 
 F("Geometry.normalize", "measures",
@@ -1262,15 +1475,35 @@ def _mass_pair(p):
     return a, b
 
 
+def _emd_pre(a, p):
+    return darsia.Resize(shape=tuple(max(1, s // 2) for s in a.img.shape[:2]), interpolation="inter_area",
+                         **{"resize conservative": True}) if p["pre"] else None
+
+
 def _emd(p):
     a, b = _mass_pair(p)
-    pre = darsia.Resize(shape=tuple(max(1, s // 2) for s in a.img.shape[:2]), interpolation="inter_area",
-                        **{"resize conservative": True}) if p["pre"] else None
-    e = darsia.EMD(pre)
-    return Call({"img_1": a, "img_2": b}, lambda: e(a, b), REJ_CV)
+    return Call({"img_1": a, "img_2": b}, lambda e: e(a, b), REJ_CV, setup=lambda: darsia.EMD(_emd_pre(a, p)))
 
 
 F("EMD()", "measures", G_EMD, _emd)
+
+
+def _emd_matrix(p):
+    """EMD.distance_matrix on a caller-owned list of 2-3 images of equal mass (the flips of one image)."""
+    a = mk(p["a"], positive=True)
+    imgs = [a]
+    for k in range(1 + p["flip"] % 2 + (1 if p["pre"] else 0))[:2]:
+        b = mk(p["a"], positive=True)
+        b.img = np.ascontiguousarray(np.flip(b.img, axis=k))
+        imgs.append(b)
+    owned = {f"images[{k}]": im for k, im in enumerate(imgs)}
+    owned["images"] = imgs
+    # the matrix already evaluates the same EMD object on up to three pairs: not issued twice
+    return Call(owned, lambda e: e.distance_matrix(imgs), REJ_CV, setup=lambda: darsia.EMD(_emd_pre(a, p)),
+                labels=(f"{len(imgs)}-images",), repeat=False)
+
+
+F("EMD.distance_matrix", "measures", G_EMD, _emd_matrix, weight=2)
 
 
 def _w1(method):
@@ -1287,7 +1520,10 @@ def _w1(method):
                 w = mk(wsp, positive=True)
                 kw["weight"] = w
                 owned["weight"] = w
-        return Call(owned, lambda: darsia.wasserstein_distance(a, b, method, **kw), REJ_CV)
+        # the variational solvers cost ~0.15 s per call and their call-to-call state is the subject of
+        # C16: only the cv2 form is issued twice
+        return Call(owned, lambda: darsia.wasserstein_distance(a, b, method, **kw), REJ_CV,
+                    repeat=method == "cv2.emd")
     return build
 
 
@@ -1453,9 +1689,7 @@ def check_chains(case):
 
 def _execute_plain(name, call, tags, watch):
     roles = list(call.args)
-    cv2.setRNGSeed(0)
-    np.random.seed(20231)
-    rng0 = np.random.get_state()
+    g0 = _Globals()
     raised = None
     try:
         res = call.fn()
@@ -1471,8 +1705,10 @@ def _execute_plain(name, call, tags, watch):
         raise Violation(f"mutated-indirectly:{name}",
                         f"step {tags['step']} ({name}) of the chain {tags['chain']} changed {ch[0]}, which "
                         f"was not an operand of the call: {ch[2]}", dict(tags, form=name, role=ch[0], field=ch[1]))
-    if not _rng_equal(rng0, np.random.get_state()):
-        raise Violation(f"rng:{name}", f"{name} changed the global numpy RNG state", dict(tags, form=name))
+    gch = g0.changed()
+    if gch is not None:
+        raise Violation(f"rng:{name}" if gch[0] == "numpy" else f"rng:{gch[0]}:{name}",
+                        f"{name} changed {gch[1]}", dict(tags, form=name))
     if raised is not None:
         return None, "raised"
     for role, obj in call.args.items():
@@ -1487,11 +1723,14 @@ def _execute_plain(name, call, tags, watch):
 # arithmetic agrees with numpy on the raw arrays
 # =======================================================================================
 
-META_KEYS = ("space_dim", "indexing", "dimensions", "origin", "series", "scalar", "date", "time", "name")
+# layout of the data array and its placement in space: what "element-wise on the raw arrays" presupposes
+LAYOUT_KEYS = ("space_dim", "indexing", "dimensions", "origin", "series", "scalar")
+# a scaled image is documented as "Scaling of image", i.e. the image itself with other values
+META_KEYS = LAYOUT_KEYS + ("date", "time", "name")
 
 
-def _same_meta(r, a):
-    ra, aa = snap({k: getattr(r, k) for k in META_KEYS}), snap({k: getattr(a, k) for k in META_KEYS})
+def _same_meta(r, a, keys=META_KEYS):
+    ra, aa = snap({k: getattr(r, k) for k in keys}), snap({k: getattr(a, k) for k in keys})
     return snap_diff(aa, ra)
 
 
@@ -1504,8 +1743,11 @@ def _np_try(f):
 
 def gen_arith(tier):
     return fd(a=S_ANY, bd=st.sampled_from(ALL_DTYPES), same=st.booleans(),
-              st=st.sampled_from(sorted(SCALARS)), v=st.sampled_from([0.0, 1.0, 2.0, 3.0, -1.0, 0.5, 2.5, -1.5]),
-              cls=st.sampled_from(["Image", "Image", "ScalarImage"]))
+              st=st.sampled_from(sorted(SCALARS)),
+              # scalars of every size: neutral (0, 1), order one, and far from the data's range
+              v=st.sampled_from([0.0, 1.0, 2.0, 3.0, -1.0, 0.5, 2.5, -1.5, 255.0, -7.0, 0.001, 1e6]),
+              cls=st.sampled_from(["Image", "Image", "ScalarImage", "OpticalImage"]),
+              cs=st.sampled_from(["RGB", "BGR", "HSV"]))
 
 
 def _expect_equal(kind, got, want, tags, what):
@@ -1519,8 +1761,11 @@ def _expect_equal(kind, got, want, tags, what):
 
 
 def check_arith(case):
-    sp = case["a"]
-    cls = darsia.ScalarImage if (case["cls"] == "ScalarImage" and sp["payload"] == "scalar") else darsia.Image
+    sp = dict(case["a"], cls=case["cls"])
+    if case["cls"] == "OpticalImage" and sp["dim"] == 2 and sp["payload"] == "vector":
+        sp["ncomp"] = 3
+        sp["color_space"] = case["cs"]
+    cls = _spec_class(sp)
     a = mk(sp, cls=cls)
     b = mk(other(sp, 1, None if case["same"] else case["bd"]), cls=cls)
     a0, b0 = a.img.copy(), b.img.copy()
@@ -1538,14 +1783,20 @@ def check_arith(case):
             labels.append(f"{nm}:numpy-rejects")
             continue
         if err is not None:
-            raise Violation(f"{nm}:accepted", f"numpy rejects {a0.dtype} {nm} {b0.dtype} but the image "
-                            f"operation returned", tags)
+            # numpy has no such operation on the raw arrays (bool - bool): there is nothing the image
+            # operation could agree or disagree with, and nothing promises that it raises
+            labels.append(f"{nm}:numpy-rejects-image-accepts")
+            continue
         _expect_equal(nm, r.img, want, tags, f"a {nm} b")
         if type(r) is not type(a):
             raise Violation(f"{nm}:class", f"result is {type(r).__name__}, operand {type(a).__name__}", tags)
-        d = _same_meta(r, a)
+        if getattr(r, "color_space", None) != getattr(a, "color_space", None):
+            raise Violation(f"{nm}:color_space", f"operands in {a.color_space}, result in {r.color_space}", tags)
+        # which date / time / name a sum of two images carries is nowhere specified: only the layout
+        # (shape interpretation and placement), which both operands share, is compared
+        d = _same_meta(r, a, LAYOUT_KEYS)
         if d is not None:
-            raise Violation(f"{nm}:metadata", f"result metadata differs from the left operand: {d[1]}", tags)
+            raise Violation(f"{nm}:metadata", f"result layout differs from the left operand: {d[1]}", tags)
         n += 1
     # --- scaling by every documented scalar type
     stype = case["st"]
@@ -1599,7 +1850,9 @@ def check_arith(case):
         raise Violation("operand-changed", "arithmetic changed an operand array", tags)
     nontrivial = (not case["same"] and str(b0.dtype) != str(a0.dtype)) or sp["series"] or sp["payload"] == "vector" \
         or stype != "float"
-    return Outcome(nontrivial=nontrivial, key=case, labels=tuple(labels) + (f"scalar:{stype}", f"dtype:{a0.dtype}"),
+    labels.append("scalar:far-from-data" if abs(case["v"]) > 4 or 0 < abs(case["v"]) < 0.125 else "scalar:order-one")
+    return Outcome(nontrivial=nontrivial, key=case,
+                   labels=tuple(labels) + cls_label(a) + (f"scalar:{stype}", f"dtype:{a0.dtype}"),
                    evals=max(1, n))
 
 
@@ -1610,7 +1863,11 @@ def check_arith(case):
 _RULE = ("registry: one case = (call form, Hypothesis-drawn operands of every image kind: 1-3-D, scalar / "
          "vector, single / series, five dtypes, date / time metadata, default / user origin); deep snapshot "
          "of every argument (all attributes of images, array bytes+dtype+shape, caller-owned lists / dicts) "
-         "and of np.random.get_state() before vs after, result shares no memory with an argument (views are "
+         "and of np.random.get_state() / random.getstate() before vs after (constructor and configuration "
+         "calls of the callee - model, Resize, Geometry, EMD object - run after the snapshots), result shares "
+         "no memory with an argument, the identical call on the same callee and arguments gives the "
+         "identical result (not for the variational solvers: C16), operands of every image class and "
+         "neutral parameters (same shape, factor 1, 0 levels, one-image list) are drawn explicitly (views are "
          "admitted only for extraction / wrapping forms; affine signal models are drawn with their neutral / "
          "default parameters (scaling 1, offset 0) as often as with general ones and configured through the "
          "constructor, update() and update_model_parameters()), then the result is mutated through append / "
@@ -1631,8 +1888,10 @@ def _reg_subs():
     n = {"arithmetic": (8000, 120000), "conversion": (14000, 210000), "extraction": (3400, 51000),
          "constructors": (1500, 22500), "composition": (2700, 40000), "resize": (3300, 50000),
          "models": (4000, 60000), "measures": (1800, 27000)}
-    sh = {"arithmetic": 2, "conversion": 3, "extraction": 1, "constructors": 1, "composition": 1,
-          "resize": 1, "models": 3, "measures": 2}
+    # the second (repeated) call costs ~15 % CPU overall, most of it in conversion and measures: one more
+    # shard each keeps the wall time of the quick tier where it was
+    sh = {"arithmetic": 2, "conversion": 4, "extraction": 1, "constructors": 1, "composition": 1,
+          "resize": 1, "models": 3, "measures": 3}
     out = []
     for g in GROUPS:
         out.append(Sub(f"registry_{g}", check_registry, gen=group_gen(g),
@@ -1656,6 +1915,11 @@ PROP = Prop(
         "is counted as rejected, accepted ones must agree with numpy",
         "a*s is compared with numpy only where numpy's result dtype equals the image dtype (the "
         "implementation scales a copy in place)",
+        "the operations are deterministic functions of their arguments: with every argument and the global "
+        "random state verified unchanged, a second identical call must return the identical result; internal "
+        "caches of the callee (Geometry's resized voxel volumes) are not inspected, only their effect on results",
+        "a sum / difference of two images is required to have the layout (space_dim, indexing, dimensions, "
+        "origin, series, scalar) and class of its operands; which date / time / name it carries is not specified",
     ],
     subs=_reg_subs() + [
         Sub("chains", check_chains, gen=gen_chains, n={"quick": 3000, "thorough": 40000},
